@@ -19,15 +19,11 @@ open Amqp.Gen.Codes
 theorem value_roundtrip (v : Value) (hw : WF v) (hn : nest v ≤ MAX_NESTING_DEPTH) (e tail : Bytes)
     (he : encode v = some e) : decode (e ++ tail) = .ok (v, tail) := by
   have hc := cost_le .none v hw e he
-  have hf : cost v ≤ ((e ++ tail).length + 1) * (MAX_ARRAY_COUNT + 2) := by
-    simp only [List.length_append, MAX_ARRAY_COUNT]
-    have : 4 * e.length ≤ (e.length + tail.length + 1) * 65538 := by
-      calc 4 * e.length ≤ 65538 * e.length := by omega
-        _ ≤ 65538 * (e.length + tail.length + 1) := by apply Nat.mul_le_mul_left; omega
-        _ = (e.length + tail.length + 1) * 65538 := Nat.mul_comm _ _
-    omega
-  simp only [decode, rt v hw e he tail _ MAX_NESTING_DEPTH MAX_ARRAY_COUNT hf hn, bind, Except.bind,
-    pure, Except.pure]
+  have hf := fuel_enough v e tail hc
+  have := rt v hw e he tail (decodeFuel (e ++ tail).length) MAX_NESTING_DEPTH MAX_ARRAY_COUNT hf hn
+  unfold decode
+  rw [this]
+  rfl
 
 /-- In particular `from_slice(to_vec(v)) = v`. -/
 theorem decode_encode (v : Value) (hw : WF v) (hn : nest v ≤ MAX_NESTING_DEPTH) (e : Bytes)
@@ -49,6 +45,30 @@ theorem enc_scalar_total (k : VarKind) (bs : Bytes) (h : bs.length ≤ U32_MAX_M
 theorem codes_consistent : ∀ p ∈ tryFromArms, p.1 = p.2 := by decide
 
 theorem codes_complete : tryFromArms.map (·.2) = discriminants := by decide
+
+/-- generated obligation: every `match` on a length in the encoder (ser.rs) and in the size calculator
+    (size_ser.rs) uses the width classes of the model — one-byte form up to `U8_MAX_MINUS_1`, four-byte
+    form from `U8_MAX` up to `U32_MAX_MINUS_4` (lists: from 1, the empty list has its own code) — and the
+    two files use the same classes function by function.  A boundary moved in either file (a size
+    computed for the other width class than the one written) breaks this. -/
+theorem width_classes_agree :
+    ranges_ser_all = [("ranges_ser_serialize_str_0", [(0, 254), (255, 4294967291)]),
+      ("ranges_ser_serialize_str_1", [(0, 254), (255, 4294967291)]),
+      ("ranges_ser_serialize_bytes_0", [(0, 254), (255, 4294967291)]),
+      ("ranges_ser_write_array_0", [(0, 254), (255, 4294967291)]),
+      ("ranges_ser_write_list_0", [(1, 254), (255, 4294967291)]),
+      ("ranges_ser_write_map_0", [(0, 254), (255, 4294967291)])] ∧
+    ranges_size_ser_all = [("ranges_size_ser_serialize_i32_0", [(-128, 127)]),
+      ("ranges_size_ser_serialize_i64_0", [(-128, 127)]),
+      ("ranges_size_ser_serialize_u32_0", [(1, 255)]),
+      ("ranges_size_ser_serialize_u64_0", [(1, 255)]),
+      ("ranges_size_ser_serialize_str_0", [(0, 254), (255, 4294967291)]),
+      ("ranges_size_ser_serialize_str_1", [(0, 254), (255, 4294967291)]),
+      ("ranges_size_ser_serialize_bytes_0", [(0, 254), (255, 4294967291)]),
+      ("ranges_size_ser_list_size_0", [(1, 254), (255, 4294967291)]),
+      ("ranges_size_ser_array_size_0", [(0, 254), (255, 4294967291)]),
+      ("ranges_size_ser_map_size_0", [(0, 254), (255, 4294967291)])] ∧
+    U8_MAX_MINUS_1 = 254 ∧ U8_MAX = 255 ∧ U32_MAX_MINUS_4 = 4294967291 := by decide
 
 /-! ### non-vacuity: a nested value with every kind of node meets the hypotheses -/
 
